@@ -280,3 +280,85 @@ def dec_precision_probe():
     conv = provider(False).get_converter_by_attr(orm.Optional(Decimal, 5, 2))
     try: conv.validate(Decimal('123456.789')); return True
     except Exception: return False
+
+
+# ------------------------------------------------------------------------------------------------ raw key values offered through relationship attributes
+
+def run_relation_keys():
+    """Account.id = PrimaryKey(int, min=0, max=1000); Profile.account = PrimaryKey(Account); Entry.profile = Required(Profile)  (two hops);
+    Tag.code = PrimaryKey(str, 4); TagInfo.tag = PrimaryKey(Tag); Entry.taginfo = Optional(TagInfo).
+    A raw key value given for Profile.account (one hop) or Entry.profile / Entry.taginfo (two hops) on creation, assignment, set(), get(), filter()
+    must be judged exactly as the innermost key attribute's validate judges it.
+    -> list of {hops, route, key, value, got: outcome, validate: outcome of Account.id.validate / Tag.code.validate}"""
+    from pony import orm
+    db = orm.Database('sqlite', ':memory:')
+    class Account(db.Entity):
+        id = orm.PrimaryKey(int, min=0, max=1000)
+        profile = orm.Optional('Profile')
+    class Profile(db.Entity):
+        account = orm.PrimaryKey(Account)
+        entries = orm.Set('Entry')
+    class Tag(db.Entity):
+        code = orm.PrimaryKey(str, 4)
+        info = orm.Optional('TagInfo')
+    class TagInfo(db.Entity):
+        tag = orm.PrimaryKey(Tag)
+        entries = orm.Set('Entry')
+    class Entry(db.Entity):
+        id = orm.PrimaryKey(int)
+        profile = orm.Required(Profile)
+        taginfo = orm.Optional(TagInfo)
+    db.generate_mapping(create_tables=True)
+    with orm.db_session:
+        for i in (0, 7, 1000): Profile(account=Account(id=i))
+        TagInfo(tag=Tag(code='ab'))
+        Entry(id=1, profile=7, taginfo='ab')
+    ints = [-5, -1, 0, 7, 1000, 1001, 2000, 7.9, '7', 'x', True]
+    strs = ['ab', ' ab ', 'toolong', 'abcd', 'abcde', 5, '']
+    out = []
+    def pk_of(x):
+        """innermost raw key of an entity reference"""
+        while isinstance(x, db.Entity): x = x._pkval_ if not isinstance(x._pkval_, tuple) else x._pkval_[0]
+        return x
+    def attempt(fn):
+        try:
+            r = fn()
+        except Exception as e:
+            return ('err', exc_code(e))
+        return ('ok', type(pk_of(r)).__name__, repr(pk_of(r)))
+    nid = [100]
+    def routes(hops, kind, v):
+        if hops == 1:
+            E, name = (Profile, 'account') if kind == 'int' else (TagInfo, 'tag')
+            yield 'get', lambda: (E.get(**{name: v}), v)[1] if E.get(**{name: v}) is None else getattr(E.get(**{name: v}), name)
+            yield 'index', lambda: getattr(E[v], name)
+        else:
+            name = 'profile' if kind == 'int' else 'taginfo'
+            def create():
+                nid[0] += 1
+                kw = {'id': nid[0], 'profile': 7}; kw[name] = v
+                return getattr(Entry(**kw), name)
+            def assign():
+                e = Entry[1]; setattr(e, name, v); return getattr(e, name)
+            def do_set():
+                e = Entry[1]; e.set(**{name: v}); return getattr(e, name)
+            def get():
+                e = Entry.get(**{name: v}); return getattr(e, name) if e is not None else None
+            def filt():
+                es = Entry.select().filter(**{name: v})[:]; return getattr(es[0], name) if es else None
+            yield 'create', create
+            yield 'assign', assign
+            yield 'set', do_set
+            yield 'get', get
+            yield 'filter', filt
+    for kind, vals, key_attr in (('int', ints, Account.id), ('str', strs, Tag.code)):
+        for v in vals:
+            try: ref = ('ok', type(key_attr.validate(v)).__name__, repr(key_attr.validate(v)))
+            except Exception as e: ref = ('err', exc_code(e))
+            for hops in (1, 2):
+                for route, fn in routes(hops, kind, v):
+                    with orm.db_session:
+                        got = attempt(fn)
+                        orm.rollback()
+                    out.append({'hops': hops, 'route': route, 'key': kind, 'value': repr(v), 'got': got, 'validate': ref})
+    return out
